@@ -12,6 +12,7 @@ import (
 	"time"
 
 	"github.com/honeycombio/refinery/agent"
+	"github.com/honeycombio/refinery/collect/cache"
 	"github.com/honeycombio/refinery/config"
 	"github.com/honeycombio/refinery/internal/health"
 	"github.com/honeycombio/refinery/logger"
@@ -33,7 +34,7 @@ import (
 
 func init() {
 	Register(&Check{ID: "C36", World: "B/cluster+agent", Gen: genShutdown, Run: runShutdown, Real: append(append([]string{}, bReal...), "agent.Agent (agent runs)"), Stub: bStub,
-		OwnProbes: []string{"traces_buffered_at_shutdown", "batches_pending_at_shutdown", "shutdown_multi_node", "agent_stopped", "span_in_queue_at_shutdown", "sender_backlog_at_stop", "flush_met_busy_honeycomb"}})
+		OwnProbes: []string{"traces_buffered_at_shutdown", "batches_pending_at_shutdown", "shutdown_multi_node", "agent_stopped", "span_in_queue_at_shutdown", "sender_backlog_at_stop", "flush_met_busy_honeycomb", "decision_round_in_progress_at_stop"}})
 }
 
 func genShutdown(r *Rng, tier string, p *Plan) {
@@ -92,6 +93,13 @@ func genShutdown(r *Rng, tier string, p *Plan) {
 		// it and are still queued when Stop is called
 		p.N["park_sender_us"] = max(0, stop-PickOf(r, int64(0), 100_000, 1_000_000, 3_000_000, 6_000_000))
 		p.N["release_sender_after_us"] = PickOf(r, int64(100_000), 1_000_000, 3_000_000)
+	}
+	if r.Bool(0.25) {
+		// a worker is slow in the middle of a decision round: it is held at its
+		// next decision some time before the shutdown and let go after Stop has
+		// been called, so the rest of the round is decided during the shutdown
+		p.N["park_decider_us"] = max(0, stop-PickOf(r, int64(0), 100_000, 1_000_000, 3_000_000, 6_000_000))
+		p.N["release_decider_after_us"] = PickOf(r, int64(100_000), 1_000_000, 3_000_000)
 	}
 	p.SortOps()
 }
@@ -155,6 +163,28 @@ func runShutdown(t *testing.T, p *Plan) *Outcome {
 						out.Probe("sender_backlog_at_stop")
 					}
 					n.tr.Release("sendTrace")
+				}
+			})
+		}
+		if _, ok := p.N["park_decider_us"]; ok {
+			w.drv.At(us(p.N["park_decider_us"]), "park", "park-decider", func() {
+				for _, n := range w.nodes {
+					for wk := 0; wk < n.coll.VerifWorkers(); wk++ {
+						n.tr.Park(fmt.Sprintf("makeDecision/%d", wk))
+					}
+				}
+				out.Fault("decider_stalled")
+			})
+			rel := stopAt + 2*us(p.N["batch_timeout_us"]) + us(p.N["release_decider_after_us"])
+			w.drv.At(rel, "release", "release-decider", func() {
+				for _, n := range w.nodes {
+					for wk := 0; wk < n.coll.VerifWorkers(); wk++ {
+						key := fmt.Sprintf("makeDecision/%d", wk)
+						if n.tr.Parked(key) {
+							out.Probe("decision_round_in_progress_at_stop")
+						}
+						n.tr.Release(key)
+					}
 				}
 			})
 		}
@@ -238,7 +268,22 @@ func runShutdown(t *testing.T, p *Plan) *Outcome {
 			w.mu.Unlock()
 			site := "after-collector (transmission or router)"
 			where := "was not in any collector buffer when the node stopped"
-			if wasBuffered {
+			// a trace that some node's decision cache remembers as kept was decided:
+			// its loss is not the recorded finding (which is about traces never decided)
+			decidedKept := false
+			if re.ev.traceID != "" {
+				for _, n := range w.nodes {
+					for wk := 0; wk < n.coll.VerifWorkers(); wk++ {
+						if _, _, found := cache.VerifPeekKept(n.coll.VerifSentCache(wk), re.ev.traceID); found {
+							decidedKept = true
+						}
+					}
+				}
+			}
+			if decidedKept {
+				site = "collect.InMemCollector.send: trace decided kept but never handed to the transmission"
+				where = "was decided as kept (the decision cache remembers it)"
+			} else if wasBuffered {
 				site = "collect.CollectorWorker.collect: buffered trace not decided at shutdown"
 				where = "was still buffered in a collector when the node stopped"
 			}
